@@ -37,14 +37,15 @@
     "both simulator flavours"                                     flavour_param_spec
     tie to the tables and dispatch of /repo                       all_records_wf, dispatch_as_modelled
     "the whole model": read (write d) = canon d                    read_write_whole_partial (induction over the section list;
-                                                                 kinds ROCKS PARAM MOMOP START NOVER ELEME CONNE GENER LINEQ SOLVR, TOUGH2
+                                                                 kinds ROCKS PARAM MOMOP START NOVER ELEME CONNE GENER LINEQ SOLVR
+                                                                 RPCAP TIMES SELEC INCON INDOM, TOUGH2
                                                                  flavour, in-file mesh), whole_sections_preserved,
                                                                  write_read_write_whole_partial
   Not proved as theorems (modelled and checked by the correspondence and the oracle only): the
-  composition into `read (write d) = canon d` for the other thirteen section kinds, AUTOUGH2 objects and the
+  composition into `read (write d) = canon d` for the other eight section kinds, AUTOUGH2 objects and the
   auxiliary files; the binary MESHA/MESHB pair; idempotence of `canonV` on reals (C02's domain).
 -/
-import PyTough.Proofs.T2WholeKinds
+import PyTough.Proofs.T2WholeObject
 open Py Model Model.T2 Proofs Proofs.T2 Proofs.Incon
 open Gen.Sections (Rec)
 namespace Props.C01
@@ -436,10 +437,10 @@ abbrev canonWhole (d d' : T2Data) : T2Data :=
     continuation that begins with a keyword line, returns its canonical value and leaves the continuation; PARAM
     hands the keyword line it read ahead back to the loop; ENDCY/ENDFI stops it).
     `_partial`: the object's sections are restricted to the kinds in `wholeKinds` (ROCKS PARAM MOMOP START NOVER
-    ELEME CONNE GENER LINEQ SOLVR — decidable, `hkinds`), to the TOUGH2 flavour without SIMUL (`hsim`), the mesh in the file
+    ELEME CONNE GENER LINEQ SOLVR RPCAP TIMES SELEC INCON INDOM — decidable, `hkinds`), to the TOUGH2 flavour without SIMUL (`hsim`), the mesh in the file
     (`hcfg`) and no extra-precision companion (`hxp`).  `hgood` collects the side conditions of the per-section
     theorems, each on the reader's object at the moment the section is met (so blocks are resolved against the
-    rock types *read*, connections against the blocks *read*).  Missing: the other thirteen kinds (their
+    rock types *read*, connections against the blocks *read*).  Missing: the other eight kinds (their
     `section_roundtrip_…` theorems have the same shape; SHORT/FOFT/COFT/GOFT/DIFFU depend on earlier sections,
     MULTI on `eos` stripping), AUTOUGH2 objects, the auxiliary files. -/
 theorem read_write_whole_partial (d : T2Data) (cfg : WriteCfg) (d' : T2Data) (f : Files) (hw : d.write cfg = .ok (d', f))
